@@ -80,6 +80,18 @@ UNITS += [
               [dict(name="no_upper_clamp", where="body:rv_sampleGaussian", rx=r"else if \(v > bounds_\.high\[i\]\)\s*v = bounds_\.high\[i\];", repl="")]),
 ]
 
+SSF8 = "src/ompl/base/src/StateSampler.cpp"
+SSS_RULES = [(r"subspaceSampler_->(sampleUniform|sampleUniformNear|sampleGaussian)\(", r"SUB_\1(", 0), (r"copyStateData\((space_|subspace_), (\w+), (space_|subspace_), (\w+)(?:, subspaces_)?\);", r"COPY_DATA(\1, \2, \3, \4);", 0),
+             (r"\bsubspace_\b", "SUBSPACE_", 0), (r"\bspace_\b", "SPACE_", 0), (r"(distance|stdDev) \* weight_", r"SCALED(\1, weight_)", 0)]
+SSS_SRC = [dict(name="sss_" + m, file=SSF8, sig=sg, rules=SSS_RULES, loops={}) for m, sg in (
+    ("sampleUniform", r"void ompl::base::SubspaceStateSampler::sampleUniform\(State \*state\)"),
+    ("sampleUniformNear", r"void ompl::base::SubspaceStateSampler::sampleUniformNear\(State \*state, const State \*near, const double distance\)"),
+    ("sampleGaussian", r"void ompl::base::SubspaceStateSampler::sampleGaussian\(State \*state, const State \*mean, const double stdDev\)"))]
+for _h, _needs, _can in (("uniform", ["sss_sampleUniform"], []), ("near", ["sss_sampleUniformNear"], [dict(name="distance_not_scaled", where="body:sss_sampleUniformNear", rx=r"SCALED\(distance, weight_\)", repl="distance")]),
+                         ("gaussian", ["sss_sampleGaussian"], [dict(name="one_work_state_for_mean_and_output", where="body:sss_sampleGaussian", rx=r"work2_", repl="work_")])):
+    UNITS.append(dict(name="c08_subspace_sampler_" + _h, template="spaces/subspace_sampler.c", mode="plain", entry="h_sss_" + _h, sources=SSS_SRC, needs=_needs, flags=D.PFLAGS, level="proof", backend="minisat", timeout=300,
+                      functions=["SubspaceStateSampler::" + _needs[0][4:]], canaries=_can))
+
 UNITS.append(D.wrapper_unit("c08_wrapper_forwarders"))
 ASSUMPTIONS = D.FP_ASSUMPTIONS + ["valid-state samplers: states are abstract objects with ghost (version, approved-version, in-bounds); component contracts assumed: state samplers yield in-bounds states, interpolate of in-bounds states is in bounds (C07), checkMotion from a valid s1 leaves a valid in-bounds last-valid state (C05.c); the validity checker is deterministic",
     "compound: components are addressed by index; each component space/sampler is assumed to satisfy its own contract (enforce => satisfies, sampled => in bounds); <= 1e6 components",
